@@ -12,6 +12,7 @@ package aml
 // namespace two-sidedly with that model, plus every method invocation.
 
 import (
+	"os"
 	"bytes"
 	"fmt"
 	"io"
@@ -93,6 +94,31 @@ func c11Collect(objs []amlObj, lexScope string, out map[string]c11Expect) error 
 					return err
 				}
 			}
+			if o.K == "method" {
+				// objects declared by the method body live in the method's scope;
+				// If / Else / While do not open a scope
+				if err := c11CollectStmts(o.Stmts, o.Abs, out); err != nil {
+					return err
+				}
+			}
+		}
+	}
+	return nil
+}
+
+func c11CollectStmts(l []amlStmt, scope string, out map[string]c11Expect) error {
+	for i := range l {
+		s := &l[i]
+		if s.K == "decl" {
+			if err := c11Collect([]amlObj{*s.Obj}, scope, out); err != nil {
+				return err
+			}
+		}
+		if err := c11CollectStmts(s.Body, scope, out); err != nil {
+			return err
+		}
+		if err := c11CollectStmts(s.Else, scope, out); err != nil {
+			return err
 		}
 	}
 	return nil
@@ -147,6 +173,41 @@ func c11View(tree *ObjectTree, scope *Object, path string, out map[string]*Objec
 			if err := c11View(tree, s, p, out, visited); err != nil {
 				return err
 			}
+		} else if s != nil {
+			if err := c11ViewMethod(tree, s, p, out, visited); err != nil {
+				return err
+			}
+		}
+	}
+	return nil
+}
+
+// c11ViewMethod records the named objects declared by a method body under the
+// method's path. Statements that are not named objects (If, Else, While and
+// their blocks) are walked through: they do not open a namespace scope.
+func c11ViewMethod(tree *ObjectTree, node *Object, path string, out map[string]*Object, visited map[uint32]bool) error {
+	if visited[node.index] {
+		return fmt.Errorf("object %d reachable twice (tree has a cycle)", node.index)
+	}
+	visited[node.index] = true
+	for i := node.firstArgIndex; i != InvalidIndex; i = tree.ObjectAt(i).nextSiblingIndex {
+		c := tree.ObjectAt(i)
+		if c == nil {
+			return fmt.Errorf("freed object linked below %s", path)
+		}
+		if _, named := c11NamedKinds[c.opcode]; named {
+			p := c11JoinPath(path, string(c.name[:]))
+			if _, dup := out[p]; dup {
+				return fmt.Errorf("two objects at %s", p)
+			}
+			out[p] = c
+			continue
+		}
+		if c.opcode == pOpIntNamePath {
+			continue
+		}
+		if err := c11ViewMethod(tree, c, path, out, visited); err != nil {
+			return err
 		}
 	}
 	return nil
@@ -487,7 +548,7 @@ func c11CheckExpr(tree *ObjectTree, o *Object, e *amlExpr, paths map[uint32]stri
 
 type c11Stats struct {
 	scopeDirectives, relocated, callsWithArgs, forwardCalls, nestedCalls, nonMinimalPkg, deferred int
-	tables, hugePkg, miscStmts, miscExprs                                                      int
+	tables, hugePkg, miscStmts, miscExprs, methodDecls                                         int
 }
 
 func c11Run(c c11Case) (fail *vlib.Failure, errLog string) {
@@ -529,6 +590,9 @@ func c11Run(c c11Case) (fail *vlib.Failure, errLog string) {
 		return vlib.Failf("the tree of a well-formed program cannot be printed: %v", pc), ""
 	}
 
+	if os.Getenv("VERIF_C11_DUMP") != "" {
+		tree.PrettyPrint(os.Stdout)
+	}
 	expect := map[string]c11Expect{}
 	for _, objs := range c.Tables {
 		if err := c11Collect(objs, "\\", expect); err != nil {
